@@ -345,11 +345,14 @@ pub fn gen_fixed_empty_fractional_offset(r: &mut Rng) -> Inst {
 /// forward formula (`floor((25 - 0.7) / 2.7) = 9` but `ceil(0.7 + 2.7 * 9) = 26 > 25`), so the same
 /// shrink constraint is proposed again for an already shrunk course.
 pub fn gen_f32_shrink_does_not_fit(r: &mut Rng) -> Inst {
-    let triples: [(f32, f32, usize, usize); 2] = [(2.7, 0.7, 25, 9), (1.7, 0.1, 29, 17)];
-    let (f, off, room, s) = triples[[0usize, 0, 0, 1][r.usize(4)]];
-    let np = s + 1 + r.usize(3);
+    let triples: [(f32, f32, usize, usize); 3] = [(2.7, 0.7, 25, 9), (1.7, 0.1, 29, 17), (2.9, 0.7, 50, 17)];
+    let (f, off, room, s) = triples[[0usize, 0, 0, 1, 2][r.usize(5)]];
+    // in a third of the cases the course is FULL at num_max = s: the computed bound is then a no-op
+    // (shrink size >= num_max) although the course does not fit the room
+    let full = r.chance(1, 3);
+    let np = if full { s + r.usize(3) } else { s + 1 + r.usize(3) };
     let courses = vec![
-        CourseDump { index: 0, dbid: 100, name: "A".into(), num_min: r.usize(3), num_max: np + 2, instructors: vec![],
+        CourseDump { index: 0, dbid: 100, name: "A".into(), num_min: r.usize(3), num_max: if full { s } else { np + 2 }, instructors: vec![],
             room_factor: f, room_offset: off, fixed_course: r.chance(1, 3), hidden_participant_names: vec![] },
         CourseDump { index: 1, dbid: 101, name: "B".into(), num_min: 0, num_max: r.usize(3), instructors: vec![],
             room_factor: 1.0, room_offset: 0.0, fixed_course: false, hidden_participant_names: vec![] },
@@ -358,6 +361,53 @@ pub fn gen_f32_shrink_does_not_fit(r: &mut Rng) -> Inst {
         .map(|i| ParticipantDump { index: i, dbid: 1000 + i, name: format!("p{}", i), choices: vec![(0, 0), (1, 1)] })
         .collect();
     Inst { courses, parts, rooms: Some(vec![room, 3]) }
+}
+
+/// A course with a minimum above 100 that lacks exactly one attendee (less than 1 % of its minimum):
+/// relative measures of the shortfall in integer percent round to 0.
+pub fn gen_big_min_course(r: &mut Rng) -> Inst {
+    let m = 101 + r.usize(10);
+    let lack = 1 + r.usize(2) / 2; // mostly 1
+    let fans = m - lack;
+    let others = 3 + r.usize(4);
+    let courses = vec![
+        CourseDump { index: 0, dbid: 100, name: "Orchestra".into(), num_min: m, num_max: m + 9, instructors: vec![],
+            room_factor: 1.0, room_offset: 0.0, fixed_course: false, hidden_participant_names: vec![] },
+        CourseDump { index: 1, dbid: 101, name: "B".into(), num_min: 0, num_max: m + 20, instructors: vec![],
+            room_factor: 1.0, room_offset: 0.0, fixed_course: false, hidden_participant_names: vec![] },
+    ];
+    let parts: Vec<ParticipantDump> = (0..fans + others)
+        .map(|i| ParticipantDump { index: i, dbid: 1000 + i, name: format!("p{}", i), choices: if i < fans { vec![(0, 0), (1, 1)] } else { vec![(1, 0)] } })
+        .collect();
+    Inst { courses, parts, rooms: None }
+}
+
+/// A room list that every course's worst case seems to fit — unless one counts the instructor of
+/// another course who becomes an ordinary attendee when that course is cancelled: A is wanted by 8
+/// people plus the instructor of B (first choice), B has a single fan and minimum 3, so B is
+/// cancelled and A grows to 10 in a room of 9.
+pub fn gen_freed_instructor_room_bound(r: &mut Rng) -> Inst {
+    let fa = 7 + r.usize(3);
+    let mk = |i: usize, name: &str, mn: usize, mx: usize, instr: Vec<usize>| CourseDump { index: i, dbid: 100 + i, name: name.into(), num_min: mn, num_max: mx,
+        instructors: instr, room_factor: 1.0, room_offset: 0.0, fixed_course: false, hidden_participant_names: vec![] };
+    let courses = vec![mk(0, "A", 0, fa + 4, vec![0]), mk(1, "B", 3, 6, vec![1]), mk(2, "C", 0, 6, vec![])];
+    let mut parts = vec![
+        ParticipantDump { index: 0, dbid: 1000, name: "a0".into(), choices: vec![] },
+        ParticipantDump { index: 1, dbid: 1001, name: "b0".into(), choices: vec![(0, 0), (2, 1)] },
+    ];
+    for _ in 0..fa {
+        let i = parts.len();
+        parts.push(ParticipantDump { index: i, dbid: 1000 + i, name: format!("p{}", i), choices: vec![(0, 0), (2, 1)] });
+    }
+    let i = parts.len();
+    parts.push(ParticipantDump { index: i, dbid: 1000 + i, name: "bfan".into(), choices: vec![(1, 0), (2, 1)] });
+    for _ in 0..1 + r.usize(2) {
+        let i = parts.len();
+        parts.push(ParticipantDump { index: i, dbid: 1000 + i, name: format!("c{}", i), choices: vec![(2, 0)] });
+    }
+    // nobody but its fa fans (and the instructor of B) lists A: instructor + fa fans fit the first room
+    // exactly; C can reach its maximum of 6, B at most 2
+    Inst { courses, parts, rooms: Some(vec![fa + 1, 6, 4]) }
 }
 
 /// Many courses (24–30) with a room conflict among the LARGEST ones, so that the selection range of
